@@ -2,7 +2,7 @@
    Proofs/Ext*.v over the model Ms/ExtModel.v (extra_props.rs, script_size, descriptor weights,
    Plan accounting) and Ms/Sat.v (satisfier). *)
 From Verif Require Import CodecSpec.
-From Verif Require Import ExecTr TypeCheck ExtModel ExtProofs ExtLemmas ExtThresh ExtSatSide ExtBounds ExtTyped ExtDesc ExtSize ExtExec ExtOps ExtCodec ExtDepth.
+From Verif Require Import ExecTr TypeCheck ExtModel ExtProofs ExtLemmas ExtThresh ExtSatSide ExtBounds ExtTyped ExtDesc ExtSize ExtExec ExtOps ExtCodec ExtDepth ExtTlSpec ExtTlProofs ExtTlConv ExtKoModel ExtKoProofs.
 From Verif Require TheoremA.
 Local Open Scope N_scope.
 
@@ -333,6 +333,152 @@ Theorem C09_plan_taproot_exact :
     /\ plan_scriptsig_size PTaproot sizes = plan_real_scriptsig PTaproot sizes ssz false.
 Proof. exact plan_taproot_exact. Qed.
 Print Assumptions C09_plan_taproot_exact.
+
+(* ---- tree_height and the recursion-depth checks (Ms/ExtTlSpec.v, Proofs/ExtTlProofs.v) ----
+   The field is the height of the AST (leaves 0) for EVERY AST, rule set and context. Hence
+   validate_non_top_level's check `tree_height > max_recursive_depth` rejects exactly the ASTs higher
+   than the limit; from_ast's check `(tree_height as u32) > 402` does so for heights below 2^32, and with
+   no side condition for a tree all of whose sub-fragments went through from_ast. *)
+Theorem C09_tree_height_exact :
+  forall fx c m, tree_height (ext_of_gen fx c m) = ms_height m.
+Proof. exact tree_height_is_height. Qed.
+Print Assumptions C09_tree_height_exact.
+Theorem C09_validate_depth_exact :
+  forall fx c m limit, validate_depth_ok limit (ext_of_gen fx c m) = true <-> ms_height m <= limit.
+Proof. exact validate_depth_exact. Qed.
+Print Assumptions C09_validate_depth_exact.
+Theorem C09_from_ast_depth_exact :
+  forall fx c m, ms_height m < U32_MOD ->
+    (from_ast_depth_ok (ext_of_gen fx c m) = true <-> ms_height m <= MAX_RECURSION_DEPTH).
+Proof. exact from_ast_depth_exact. Qed.
+Print Assumptions C09_from_ast_depth_exact.
+Theorem C09_built_by_from_ast_exact :
+  forall fx c m, built_by_from_ast fx c m = true <-> ms_height m <= MAX_RECURSION_DEPTH.
+Proof. exact built_by_from_ast_exact. Qed.
+Print Assumptions C09_built_by_from_ast_exact.
+
+(* ---- timelock_info ----
+   Flags: csv_with_height / csv_with_time / cltv_with_height / cltv_with_time are set iff an
+   older / after leaf of that unit occurs in the AST.
+   contains_combination, exact w.r.t. the syntactic specification [tl_mixes]: two lock leaves of the
+   same kind and different unit whose lowest common ancestor is and_v, and_b, the (X, Y) pair of
+   andor, or a thresh with k >= 2 under two different children (k <= 1: like a disjunction, as the code does).
+   Satisfying paths ([sat_paths]: one operand of an or, X and Y or Z of andor, every choice of exactly
+   k children of a thresh, `0` has none): path-mixing => flag for EVERY AST; every leaf a path needs
+   is in the flags. The converse is refuted: and_v(v:older(1),and_v(v:older(4194305),0)) is well typed,
+   has the flag and no satisfying path (the field over-approximates on unsatisfiable conjunctions). *)
+Theorem C09_timelock_flags_exact :
+  forall fx c m l, tl_flag (timelock_info (ext_of_gen fx c m)) l = true <-> In l (lock_leaves m).
+Proof. exact timelock_flags_exact. Qed.
+Print Assumptions C09_timelock_flags_exact.
+Theorem C09_timelock_comb_exact :
+  forall fx c m, tl_comb (timelock_info (ext_of_gen fx c m)) = true <-> tl_mixes m.
+Proof. exact timelock_comb_exact. Qed.
+Print Assumptions C09_timelock_comb_exact.
+Theorem C09_timelock_comb_sound_paths :
+  forall fx c m, path_mix m -> tl_comb (timelock_info (ext_of_gen fx c m)) = true.
+Proof. exact timelock_comb_sound_paths. Qed.
+Print Assumptions C09_timelock_comb_sound_paths.
+Theorem C09_timelock_flags_cover_paths :
+  forall fx c m p l, In p (sat_paths m) -> In l p -> tl_flag (timelock_info (ext_of_gen fx c m)) l = true.
+Proof. exact timelock_flags_cover_paths. Qed.
+Print Assumptions C09_timelock_flags_cover_paths.
+Theorem C09_timelock_comb_paths_converse_refuted :
+  exists m t, type_of m = ROk t
+              /\ (forall fx c, tl_comb (timelock_info (ext_of_gen fx c m)) = true)
+              /\ ~ path_mix m.
+Proof. exact timelock_comb_paths_converse_refuted. Qed.
+Print Assumptions C09_timelock_comb_paths_converse_refuted.
+(* The converse holds on the computable class [tl_total] (Proofs/ExtTlConv.v): every operand of a
+   conjunction (and_v, and_b, andor's X and Y, every child of a thresh) has a satisfying path and
+   thresh has 1 <= k <= n. There the flag is EXACT for satisfying paths, and a flag is set iff some
+   satisfying path needs a leaf of that kind and unit. *)
+Theorem C09_timelock_comb_exact_paths :
+  forall fx c m, tl_total m = true ->
+    (tl_comb (timelock_info (ext_of_gen fx c m)) = true <-> path_mix m).
+Proof. exact timelock_comb_exact_paths. Qed.
+Print Assumptions C09_timelock_comb_exact_paths.
+Theorem C09_timelock_flags_exact_paths :
+  forall fx c m l, tl_total m = true ->
+    (tl_flag (timelock_info (ext_of_gen fx c m)) l = true <-> exists p, In p (sat_paths m) /\ In l p).
+Proof. exact timelock_flags_exact_paths. Qed.
+Print Assumptions C09_timelock_flags_exact_paths.
+Example C09_tl_total_nonvacuous :
+  tl_total tl_and_mixed = true /\ tl_total (tl_thresh_mixed 2) = true /\ tl_total tl_converse_witness = false
+  /\ tl_total (MOrD (MCheck (MPkK 0)) (MAndV (MVerify (MCheck (MPkK 1))) (MOlder 10))) = true.
+Proof. exact tl_total_nonvacuous. Qed.
+Example C09_tl_nonvacuous :
+  ms_height (tl_chain 401) = 402 /\ built_by_from_ast as_written tl_cx0 (tl_chain 401) = true
+  /\ ms_height (tl_chain 402) = 403 /\ built_by_from_ast as_written tl_cx0 (tl_chain 402) = false
+  /\ from_ast_depth_ok (ext_of tl_cx0 (tl_chain 402)) = false
+  /\ path_mix tl_and_mixed /\ tl_comb (timelock_info (ext_of tl_cx0 tl_and_mixed)) = true
+  /\ ~ path_mix tl_or_mixed /\ ~ tl_mixes tl_or_mixed /\ tl_comb (timelock_info (ext_of tl_cx0 tl_or_mixed)) = false
+  /\ lock_leaves tl_or_mixed = [(LRel, UHeight); (LRel, UTime)]
+  /\ (exists t, type_of (tl_thresh_mixed 2) = ROk t)
+  /\ tl_comb (timelock_info (ext_of tl_cx0 (tl_thresh_mixed 1))) = false
+  /\ tl_comb (timelock_info (ext_of tl_cx0 (tl_thresh_mixed 2))) = true
+  /\ path_mix (tl_thresh_mixed 2) /\ ~ path_mix (tl_thresh_mixed 1).
+Proof. exact tl_nonvacuous. Qed.
+
+(* ---- key-only descriptors pkh / wpkh / sh(wpkh) (Ms/ExtKoModel.v, Proofs/ExtKoProofs.v) ----
+   Their satisfaction has one shape, <sig> <key>. For a signature of at most 72 bytes (low-S DER +
+   sighash byte; 73 with its push opcode / length prefix: the library's stated assumption) and a key
+   of 33 or 65 bytes (pkh) resp. 33 bytes (wpkh, sh(wpkh): the constructors refuse uncompressed keys)
+   the constant max_weight_to_satisfy covers the weight beyond the unsatisfied input and the deprecated
+   max_satisfaction_weight covers the absolute weight. Tight at 72 bytes; false for a 73-byte (high-S)
+   signature, which is why the hypothesis is there. *)
+Theorem C09_pkh_weight :
+  forall sig key, sig <= 72 -> key = 33 \/ key = 65 ->
+    pkh_measured sig key <= pkh_weight (key + 1) /\ pkh_measured_abs sig key <= pkh_old_weight (key + 1).
+Proof. exact pkh_weight_bound. Qed.
+Print Assumptions C09_pkh_weight.
+Theorem C09_wpkh_weight :
+  forall sig, sig <= 72 ->
+    wpkh_measured sig 33 <= wpkh_weight /\ wpkh_measured_abs sig 33 <= wpkh_old_weight
+    /\ sh_wpkh_measured sig 33 <= sh_wpkh_weight /\ sh_wpkh_measured_abs sig 33 <= sh_wpkh_old_weight.
+Proof. exact wpkh_weight_bound. Qed.
+Print Assumptions C09_wpkh_weight.
+Example C09_keyonly_weight_tight :
+  pkh_measured 72 33 = pkh_weight 34 /\ pkh_measured 72 65 = pkh_weight 66
+  /\ wpkh_measured 72 33 = wpkh_weight /\ sh_wpkh_measured 72 33 = sh_wpkh_weight.
+Proof. exact keyonly_weight_tight. Qed.
+Example C09_keyonly_weight_needs_low_s :
+  pkh_weight 34 < pkh_measured 73 33 /\ wpkh_weight < wpkh_measured 73 33.
+Proof. exact keyonly_weight_needs_low_s. Qed.
+
+(* ---- the raw key hash leaf (expr_raw_pkh; arises only when a script is decoded from bytes) ----
+   With a satisfier that resolves the hash the satisfaction is [sig item; key item] and the
+   dissatisfaction [empty; key item]. For a compressed key (ECDSA contexts) and an x-only key (Tap)
+   both are within the figures of pk_h(None), for every rule set. For an UNCOMPRESSED key they are not:
+   the figure counts 34 bytes for the key item, the satisfier pushes 66 (finding
+   rawpkh:uncompressed-key-counted-as-34). With the candidate repair (66 outside Tap) both key forms
+   are covered. *)
+Theorem C09_raw_pkh_bound :
+  forall fx c h r,
+    (if xc_schnorr c then rawres_xonly r else rawres_compressed r) ->
+    exists s d, sat_data (ext_of_gen fx c (MRawPkH h)) = Some s /\ dissat_data (ext_of_gen fx c (MRawPkH h)) = Some d
+                /\ items_within (raw_sat_items r) s /\ items_within (raw_dissat_items r) d.
+Proof. exact raw_pkh_bound. Qed.
+Print Assumptions C09_raw_pkh_bound.
+Theorem C09_raw_pkh_uncompressed_refuted :
+  forall fx c h, xc_schnorr c = false ->
+    exists r s d, rawres_uncompressed r
+                  /\ sat_data (ext_of_gen fx c (MRawPkH h)) = Some s /\ dissat_data (ext_of_gen fx c (MRawPkH h)) = Some d
+                  /\ sd_wsize s < items_sum (raw_sat_items r) /\ sd_ssig s < items_sum (raw_sat_items r)
+                  /\ sd_wsize d < items_sum (raw_dissat_items r).
+Proof. exact raw_pkh_uncompressed_refuted. Qed.
+Print Assumptions C09_raw_pkh_uncompressed_refuted.
+Theorem C09_raw_pkh_bound_fixed :
+  forall (schnorr : bool) (r : rawres),
+    (if schnorr then rawres_xonly r else rawres_compressed r \/ rawres_uncompressed r) ->
+    exists s d, sat_data (ext_pk_h_none_fixed schnorr) = Some s /\ dissat_data (ext_pk_h_none_fixed schnorr) = Some d
+                /\ items_within (raw_sat_items r) s /\ items_within (raw_dissat_items r) d.
+Proof. exact raw_pkh_bound_fixed. Qed.
+Print Assumptions C09_raw_pkh_bound_fixed.
+Example C09_ko_nonvacuous :
+  rawres_compressed (mkRawRes 73 34) /\ rawres_xonly (mkRawRes 66 33) /\ rawres_uncompressed (mkRawRes 73 66)
+  /\ items_sum (raw_sat_items (mkRawRes 73 34)) = 107 /\ items_sum (raw_sat_items (mkRawRes 66 33)) = 99.
+Proof. exact ko_nonvacuous. Qed.
 
 Example C09_nonvacuous :
   senv_ok cx_segwit se_key3 /\ ksort_len_ok ke0
